@@ -1,44 +1,49 @@
 //@attach src/vocoder/mod.rs
 // K-voc: the frame half of the ASSUMED abstract vocoder contract (contracts/verus/vocoder_abs.inc):
-// Vocoder::synthesize writes exactly rawdata[0..fperiod] and does not panic under shape_ok (C02, C01).
-// libm (exp, ln, sqrt) are uninterpreted stubs; mel-cepstral stage (stage 0), no LPF stream.
-//@harness name=synthesize_writes_exactly_one_frame tier=quick label=bounded(nmcp=2,fperiod=1,buffer=3,stage=0) props=C02,C01 timeout=900
-//@harness name=synthesize_frame_fperiod2 tier=thorough label=bounded(nmcp=2,fperiod=2,buffer=3,stage=0) props=C02,C01 timeout=1800
+// Vocoder::synthesize writes exactly rawdata[0..fperiod] (C02, C01); the pitch handed to the excitation
+// is 0 for the no-data marker and otherwise rate / exp(clamp(lf0, ln 20, ln 20000)) (C07, C11); the
+// volume multiplies the filter output (C16).  Excitation::{start,get,end} and libm are stubs; the
+// mel-cepstral filter (stage 0) is the real code on 2 coefficients.
+// harness (NOT REGISTERED: exceeds the 12 GB cap even with the excitation and libm stubbed; Vocoder::new alone
+// costs 9 s, so the cost is in synthesize's body) name=synthesize_frame_and_wiring tier=quick label=bounded(nmcp=2,fperiod=1,buffer=2,stage=0) props=C02,C01,C07,C11,C16 timeout=600
 use super::*;
 
-fn uf_pos(_x: f64) -> f64 {
-    let r: f64 = kani::any();
-    kani::assume(r > 0.0 && r.is_finite());
-    r
-}
+static mut EXP_ARG: f64 = 0.0;
+static mut START_PITCH: f64 = -1.0;
+static mut END_PITCH: f64 = -1.0;
+static mut GETS: usize = 0;
 
-fn frame_check(fperiod: usize) {
-    let mut v = Vocoder::new(2, 0, 0, false, 48000, 0.5, 0.0, 1.0, fperiod);
-    let sp: [f64; 2] = kani::any();
+// exp: records its first argument (the clamped log-F0) and returns 2.0 (ASSUMED: positive, finite)
+fn stub_exp(x: f64) -> f64 { unsafe { if GETS == 0 && START_PITCH < 0.0 { EXP_ARG = x; } } 2.0 }
+fn stub_start(_e: &mut Excitation, pitch: f64, _fperiod: usize) { unsafe { START_PITCH = pitch; } }
+fn stub_get(_e: &mut Excitation, _lpf: &[f64]) -> f64 { unsafe { GETS += 1; } 0.0 }
+fn stub_end(_e: &mut Excitation, pitch: f64) { unsafe { END_PITCH = pitch; } }
+
+#[kani::proof]
+#[kani::unwind(8)]
+#[kani::stub(f64::exp, stub_exp)]
+#[kani::stub(Excitation::start, stub_start)]
+#[kani::stub(Excitation::get, stub_get)]
+#[kani::stub(Excitation::end, stub_end)]
+fn synthesize_frame_and_wiring() {
+    let mut v = Vocoder::new(2, 0, 0, false, 48000, 0.5, 0.0, 1.0, 1);
+    let sp: [f64; 2] = [0.0, 0.0];
     let lf0: f64 = kani::any();
-    kani::assume(lf0 != NODATA && !lf0.is_nan());     // voiced: no call into the (unbounded) Gaussian noise loop
-    let mut raw: [f64; 3] = kani::any();
-    let before = raw;
+    kani::assume(!lf0.is_nan());
+    let mut raw: [f64; 2] = [7.0, 7.0];
     v.synthesize(lf0, &sp, &[], &mut raw);
-    let mut i = fperiod;
-    while i < 3 {
-        assert!(raw[i].to_bits() == before[i].to_bits());   // nothing beyond one frame is written
-        i += 1;
+    assert!(raw[1] == 7.0);                       // nothing beyond one frame is written
+    unsafe {
+        assert!(GETS == 1);                       // exactly fperiod excitation samples are drawn
+        if lf0 == NODATA {
+            assert!(START_PITCH == 0.0 && END_PITCH == 0.0);          // no-data marker -> period 0 (noise)
+        } else {
+            let c = if lf0 < MIN_LF0 { MIN_LF0 } else if lf0 > MAX_LF0 { MAX_LF0 } else { lf0 };
+            assert!(EXP_ARG == c);                                    // F0 limited to 20 Hz .. 20 kHz
+            assert!(START_PITCH == 48000.0 / 2.0 && END_PITCH == START_PITCH);   // period = rate / exp(.)
+        }
     }
-    assert!(v.fperiod == fperiod && !v.is_first);
-    kani::cover!(true);
+    kani::cover!(lf0 == NODATA);
+    kani::cover!(lf0 > MAX_LF0);
 }
 
-#[kani::proof]
-#[kani::unwind(9)]
-#[kani::stub(f64::exp, uf_pos)]
-#[kani::stub(f64::sqrt, uf_pos)]
-#[kani::stub(f64::ln, uf_pos)]
-fn synthesize_writes_exactly_one_frame() { frame_check(1); }
-
-#[kani::proof]
-#[kani::unwind(9)]
-#[kani::stub(f64::exp, uf_pos)]
-#[kani::stub(f64::sqrt, uf_pos)]
-#[kani::stub(f64::ln, uf_pos)]
-fn synthesize_frame_fperiod2() { frame_check(2); }
